@@ -3,6 +3,10 @@
 import json, subprocess
 ALL = ["C%02d" % i for i in range(1, 21)]
 CHECKS = {
+ "C06": dict(cat="exploration", tech="exhaustive enumeration of short inputs and deviation-bounded mutation of valid symbols, totality oracle",
+   text="Every byte string up to 2/3 bytes into the QR (4 versions) and Data Matrix codeword parsers, every mode nibble x 18 segment kinds x every truncation x charset hints, every ECI designator in all three encodings, every bit string up to 16/20 bits and all FLG(n)/binary-shift headers into the Aztec high-level decoder; QR and Data Matrix module decoders on every width x height up to 40/50 squared and the large sizes with 8 fills, every single (and for the smallest symbols double) module flip of valid symbols; the Aztec decoder on every (mode, layers, data-block count) incl. out-of-range ones; 14 row decoders on every pixel row up to 14/20 pixels and on valid rows with every single run +-1, truncation and reversal, Code 39 for every string <=2/3 over its alphabet in all four flag combinations; 16 image readers on every bilevel image up to 9/16 pixels, every size up to 30/48 squared with fills, rendered symbols with every pixel flip / deleted row or column / crop and all 256 hint subsets. Oracle: returns under the watchdog, no panic, exactly one of result/error, image-level errors carry a NotFound/Checksum/Format exception in their chain.",
+   note="Valid symbols are produced by the library's own writers (only totality is judged, so no independent encoder is needed). Symbol-character-level mutation of Code 93/128 rows is added through ref/oned once available.",
+   ref="5/C06"),
  "C12": dict(cat="exploration", tech="deviation-bounded exhaustive product over call parameters, plus full products of interacting axes",
    text="Every assignment that differs from each of the 11 writers' default call in at most 2 (quick) / 3 (thorough) of 14 axes (format incl. all 17 values and out-of-range ones, ~95 contents incl. empty/4000-char/invalid UTF-8/escape characters, symbolic widths and heights around the bare and natural sizes, ten hint keys with in- and out-of-range values), plus full products: margin -130..30 x width 0..160 x height for QR and the nine 1-D writers, Code 128 forced code set x all strings <=3/4 over 12 classes, all writers x all strings <=2/3 over 21 classes. Oracle: returns under the watchdog, no panic, exactly one of matrix/error, matrix >= the bare symbol (same call at 0x0, margin 0) and for QR/1-D >= max(requested,1), 1-D symbol actually drawn.",
    note="Hint values are of the Go types each hint documents. The bare-symbol size comes from the library itself (margin-0 rendering); symbol-size correctness against the standards is C07/C08/C13/C14.",
